@@ -893,7 +893,7 @@ class R:
         am = s._angle_multiple()
         if am:
             return R.lift(am[0].cos_sin_multiple(am[1])[0])
-        return _uf("COS", s)
+        return _trig_pair(s)[0]
 
     def sin(s):
         c = s.concrete()
@@ -902,7 +902,7 @@ class R:
         am = s._angle_multiple()
         if am:
             return R.lift(am[0].cos_sin_multiple(am[1])[1])
-        return _uf("SIN", s)
+        return _trig_pair(s)[1]
 
     def tan(s):
         c = s.concrete()
@@ -912,7 +912,8 @@ class R:
         if am:
             cc, ss = am[0].cos_sin_multiple(am[1])
             return R.lift(ss) / R.lift(cc)
-        return _uf("TAN", s)
+        cc, ss = _trig_pair(s)
+        return ss / cc
 
     def arccos(s):
         c = s.concrete()
@@ -920,7 +921,12 @@ class R:
             if abs(c) > 1:
                 raise Unmodelled("arccos outside [-1,1]")
             return R(math.acos(float(c)))
-        return _uf("ARCCOS", s)
+        ctx = Ctx.cur
+        fresh = ("ARCCOS", _key(s)) not in ctx.memo
+        r = _uf("ARCCOS", s)
+        if fresh:
+            ctx.add(z3.And(r.z() >= 0, r.z() <= z3.RealVal("3.14159265358979323846264338328")))
+        return r
 
     def arcsin(s):
         c = s.concrete()
@@ -965,6 +971,35 @@ _OPS = {
 
 def _key(r):
     return frozenset(r.p.items())
+
+
+def _trig_pair(arg):
+    """(cos, sin) of a symbolic angle: inverse of ARCCOS where the angle is +-ARCCOS(x); otherwise a pair of
+    uninterpreted applications with the Pythagorean identity"""
+    ctx = Ctx.cur
+    if len(arg.p) == 1:
+        (m, k), = arg.p.items()
+        if len(m) == 1 and m[0][1] == 1 and k in (1, -1):
+            for (name, a, g) in ctx.uf_apps:
+                if name == "ARCCOS" and g == m[0][0]:
+                    x = a
+                    sn = (R(1) - x * x).sqrt()
+                    return x, (sn if k == 1 else -sn)
+    key = ("TRIG", _key(arg))
+    pr = ctx.memo.get(key)
+    if pr is None:
+        c = _uf("COS", arg)
+        s_ = _uf("SIN", arg)
+        ctx.add(c.z() * c.z() + s_.z() * s_.z() == 1)
+        # cos(-a) = cos(a), sin(-a) = -sin(a) against earlier pairs
+        for k2, (c2, s2, a2) in list(ctx.memo.items()) if False else []:
+            pass
+        neg = ctx.memo.get(("TRIG", _key(-arg)))
+        if neg is not None:
+            ctx.add(z3.And(c.z() == neg[0].z(), s_.z() == -neg[1].z()))
+        pr = (c, s_)
+        ctx.memo[key] = pr
+    return pr
 
 
 def _uf(name, arg):
